@@ -350,16 +350,20 @@ func ValidateLogMultiConfig(cfg *configpb.LogMultiConfig) (LogBackendMap, error)
 	}
 
 	// Check that logs all reference a defined backend.
-	logIDMap := make(map[string]bool)
+	type logIDKey struct {
+		backend string
+		logID   int64
+	}
+	logIDMap := make(map[logIDKey]bool)
 	for _, logCfg := range cfg.LogConfigs.Config {
 		if _, ok := backendMap[logCfg.LogBackendName]; !ok {
 			return nil, fmt.Errorf("log config: references undefined backend: %s: %v", logCfg.LogBackendName, logCfg)
 		}
-		logIDKey := fmt.Sprintf("%s-%d", logCfg.LogBackendName, logCfg.LogId)
-		if ok := logIDMap[logIDKey]; ok {
+		key := logIDKey{backend: logCfg.LogBackendName, logID: logCfg.LogId}
+		if ok := logIDMap[key]; ok {
 			return nil, fmt.Errorf("log config: dup tree id: %d for: %v", logCfg.LogId, logCfg)
 		}
-		logIDMap[logIDKey] = true
+		logIDMap[key] = true
 	}
 
 	return backendMap, nil
